@@ -1,11 +1,11 @@
 (* Properties/C18.v — DHCP leases survive restart; a damaged lease file cannot crash the server.
    Only statements, each closed by [exact] of a lemma proved in Proofs/Lease*.v.
 
-   The model (Model/Lease.v) starts from the document yaml.Unmarshal returns; gopkg.in/yaml.v2 enters as the
-   Section variables print/parse with the named hypothesis yaml_roundtrip.  The crash-point clause about
-   damaged file TEXT (every prefix / corruption) depends on yaml.v2 and is not a theorem: it is searched by
-   enumeration in the correspondence run (harness/cmd/c18/corrupt.go), with the theorems below telling what
-   ANY accepted document can lead to. *)
+   The model (Model/Lease.v) starts from the integrity verdict on the text and the document yaml.Unmarshal
+   returns; the file system, sha256 and gopkg.in/yaml.v2 enter as the Section variables print/read with the named
+   hypotheses yaml_roundtrip and checksum_detects (Section hypotheses).  What those libraries make of damaged TEXT
+   is searched by enumeration in the correspondence run (harness/cmd/c18/corrupt.go), which validates
+   checksum_detects on every enumerated damage; the theorems below hold for ANY accepted document. *)
 From PV Require Import Base.Prelude Model.LeaseBase Model.Lease Model.LeaseKnown Model.LeaseServe
   Proofs.Lease Proofs.LeaseNew Proofs.LeaseRestart Proofs.LeaseServe.
 From Coq Require Import Permutation.
@@ -14,63 +14,99 @@ Open Scope N_scope.
 (* ---------------- restart ---------------- *)
 
 (* Take ANY state s the constructor returned for configuration c (home LAN given as a network address), let
-   the lease table evolve to ANY table t (distinct keys) outside the recorded class, save it in ANY map
-   iteration order, print and parse it with a round-tripping YAML library, and construct again under ANY
-   capture state: the new handler has the same subnets and exactly the acknowledged (client id, MAC, IP)
-   bindings.  [known_C18_restart]: some Allocated lease has an empty client id or an address outside net1. *)
+   the lease table evolve to ANY table t with distinct keys that is outside the recorded class (no Allocated
+   lease with an empty client id) and satisfies the server invariant alloc_in_net1 (every acknowledged address
+   lies in net1: C11, since /repo 7baf630), save it in ANY map iteration order, write and read it through a
+   round-tripping file/YAML oracle, and construct again under ANY capture state: the new handler has the same
+   subnets and exactly the acknowledged (client id, MAC, IP) bindings. *)
 Theorem C18_restart_partial :
-  forall (text : Type) (print : doc -> text) (parse : text -> option doc),
-  yaml_roundtrip text print parse ->
+  forall (text : Type) (print : doc -> text) (read : text -> input),
+  yaml_roundtrip text print read ->
   forall c cap0 i0 s cap t ord,
     home_masked c ->
     new c cap0 i0 = Ok s ->
-    known_C18_restart (d_n1 s) t = false ->
+    known_C18_restart t = false -> alloc_in_net1 (d_n1 s) t = true ->
     NoDup (map l_cid t) -> Permutation ord t ->
-    exists s', new c cap (input_of_text text parse (print (save (d_n1 s) (d_n2 s) ord))) = Ok s'
+    exists s', new c cap (read (print (save (d_n1 s) (d_n2 s) ord))) = Ok s'
                /\ d_n1 s' = d_n1 s /\ d_n2 s' = d_n2 s
                /\ d_table s' = map (restored cap (d_n2 s)) (save_leases ord)
                /\ Permutation (bindings (d_table s')) (acked_bindings t).
 Proof. exact restart_partial. Qed.
 Print Assumptions C18_restart_partial.
 
-(* The full statement (every table) is refuted by the faithful model: an acknowledged lease with an empty
-   client id / an address outside net1 is saved and then dropped by loadByteArray (YAML = identity here). *)
+(* The full statement (every table satisfying the invariant) is refuted by the faithful model: an acknowledged
+   lease with an empty client id is saved without it and then dropped by loadByteArray. *)
 Theorem C18_restart_refuted :
   exists c s t,
     home_masked c /\ new c (fun _ => false) ReadErr = Ok s /\ NoDup (map l_cid t)
-    /\ known_C18_restart (d_n1 s) t = true
-    /\ exists s', new c (fun _ => false) (input_of_text doc Some (save (d_n1 s) (d_n2 s) t)) = Ok s'
+    /\ alloc_in_net1 (d_n1 s) t = true
+    /\ known_C18_restart t = true
+    /\ exists s', new c (fun _ => false) (Doc SumOk (save (d_n1 s) (d_n2 s) t)) = Ok s'
                   /\ ~ Permutation (bindings (d_table s')) (acked_bindings t).
 Proof. exact restart_refuted. Qed.
 Print Assumptions C18_restart_refuted.
 
+(* the invariant hypothesis cannot be dropped either (such tables are unreachable since /repo 7baf630) *)
+Theorem C18_restart_needs_invariant :
+  exists c s t,
+    home_masked c /\ new c (fun _ => false) ReadErr = Ok s /\ NoDup (map l_cid t)
+    /\ known_C18_restart t = false /\ alloc_in_net1 (d_n1 s) t = false
+    /\ exists s', new c (fun _ => false) (Doc SumOk (save (d_n1 s) (d_n2 s) t)) = Ok s'
+                  /\ ~ Permutation (bindings (d_table s')) (acked_bindings t).
+Proof. exact restart_needs_invariant. Qed.
+Print Assumptions C18_restart_needs_invariant.
+
 Example C18_restart_nonvacuous :
   exists s, home_masked ex_cfg /\ new ex_cfg (fun _ => false) ReadErr = Ok s
-    /\ known_C18_restart (d_n1 s) [{| l_rec := ex_rec; l_sub := 1 |}] = false
+    /\ known_C18_restart [{| l_rec := ex_rec; l_sub := 1 |}] = false
+    /\ alloc_in_net1 (d_n1 s) [{| l_rec := ex_rec; l_sub := 1 |}] = true
     /\ acked_bindings [{| l_rec := ex_rec; l_sub := 1 |}] <> [].
 Proof. exact restart_nonvacuous. Qed.
 Print Assumptions C18_restart_nonvacuous.
+
+(* ---------------- crash points and corruption ---------------- *)
+
+(* The clause "for a file truncated at any byte offset or otherwise corrupted, construction yields either the
+   intact bindings or an empty table, never anything else", for the damage model [dmg] under the named hypothesis
+   checksum_detects (the integrity line written by saveConfig since the fourth #23 repair): reading a damaged
+   version of a saved file gives an error, a checksum mismatch, the original document, or a lease-less document.
+   The hypothesis is about sha256 and yaml.v2 and is validated by the enumeration of the correspondence run
+   (every byte prefix, substitutions, line deletions/duplications of real lease files). *)
+Theorem C18_damaged_intact_or_empty :
+  forall (text : Type) (print : doc -> text) (read : text -> input) (dmg : text -> text -> Prop),
+  checksum_detects text print read dmg ->
+  forall c cap0 i0 s cap t ord x,
+    home_masked c ->
+    new c cap0 i0 = Ok s ->
+    known_C18_restart t = false -> alloc_in_net1 (d_n1 s) t = true ->
+    NoDup (map l_cid t) -> Permutation ord t ->
+    dmg x (print (save (d_n1 s) (d_n2 s) ord)) ->
+    (exists s', new c cap (read x) = Ok s' /\ Permutation (bindings (d_table s')) (acked_bindings t))
+    \/ (forall s', new c cap (read x) = Ok s' -> d_table s' = []).
+Proof. exact damaged_intact_or_empty. Qed.
+Print Assumptions C18_damaged_intact_or_empty.
 
 (* FULL STRENGTH, no recorded class: whatever the first input was (missing file, YAML error, ANY document, however
    damaged), the state the constructor returned is a fixed point of save -> print -> parse -> construct: same
    subnets, same bindings, under any capture state. *)
 Theorem C18_restart_fixpoint :
-  forall (text : Type) (print : doc -> text) (parse : text -> option doc),
-  yaml_roundtrip text print parse ->
+  forall (text : Type) (print : doc -> text) (read : text -> input),
+  yaml_roundtrip text print read ->
   forall c cap0 i0 s cap,
     home_masked c ->
     new c cap0 i0 = Ok s ->
-    exists s', new c cap (input_of_text text parse (print (save (d_n1 s) (d_n2 s) (d_table s)))) = Ok s'
+    exists s', new c cap (read (print (save (d_n1 s) (d_n2 s) (d_table s)))) = Ok s'
                /\ d_n1 s' = d_n1 s /\ d_n2 s' = d_n2 s
                /\ bindings (d_table s') = bindings (d_table s).
 Proof. exact restart_fixpoint. Qed.
 Print Assumptions C18_restart_fixpoint.
 
-(* every constructed table has distinct keys, only Allocated leases, and is outside the recorded restart class *)
+(* every constructed table has distinct keys, only Allocated leases, is outside the recorded restart class and satisfies the invariant *)
 Theorem C18_new_table_wf : forall c cap i s, new c cap i = Ok s ->
   NoDup (map l_cid (d_table s))
   /\ (forall l, In l (d_table s) -> allocated l = true)
-  /\ known_C18_restart (d_n1 s) (d_table s) = false.
+  /\ known_C18_restart (d_table s) = false
+  /\ alloc_in_net1 (d_n1 s) (d_table s) = true.
 Proof. exact new_table_wf. Qed.
 Print Assumptions C18_new_table_wf.
 
@@ -110,16 +146,16 @@ Theorem C18_new_table_partial : forall c cap i s,
   forall l, In l (d_table s) ->
     allocated l = true
     /\ r_cid (l_rec l) <> []
-    /\ (exists d, i = Doc d /\ In (l_rec l) (d_leases d))
+    /\ (exists st d, i = Doc st d /\ In (l_rec l) (d_leases d))
     /\ (known_C18_bits c i = false -> contains (c_home c) (r_ip (l_rec l)) = true).
 Proof. exact new_table_filters. Qed.
 Print Assumptions C18_new_table_partial.
 
 (* configChanged compares LAN.Addr() only: net1 192.168.0.0/16 on home 192.168.0.0/24 restores 192.168.1.5 *)
 Theorem C18_new_in_home_refuted :
-  exists s l, new ex_cfg (fun _ => false) (Doc ex_doc_wide) = Ok s /\ In l (d_table s)
+  exists s l, new ex_cfg (fun _ => false) (Doc SumAbsent ex_doc_wide) = Ok s /\ In l (d_table s)
               /\ contains (c_home ex_cfg) (r_ip (l_rec l)) = false
-              /\ known_C18_bits ex_cfg (Doc ex_doc_wide) = true.
+              /\ known_C18_bits ex_cfg (Doc SumAbsent ex_doc_wide) = true.
 Proof. exact new_in_home_refuted. Qed.
 Print Assumptions C18_new_in_home_refuted.
 
@@ -135,13 +171,13 @@ Print Assumptions C18_new_total.
 
 (* the inputs on which the unrepaired constructor panicked now reset to an empty table *)
 Theorem C18_new_former_panics_reset :
-  (exists s, new ex_cfg (fun _ => true) (Doc ex_doc_nonet1) = Ok s /\ d_table s = [])
-  /\ (exists s, new ex_cfg (fun _ => true) (Doc ex_doc_v6) = Ok s /\ d_table s = []).
+  (exists s, new ex_cfg (fun _ => true) (Doc SumOk ex_doc_nonet1) = Ok s /\ d_table s = [])
+  /\ (exists s, new ex_cfg (fun _ => true) (Doc SumAbsent ex_doc_v6) = Ok s /\ d_table s = []).
 Proof. exact new_former_panics_reset. Qed.
 Print Assumptions C18_new_former_panics_reset.
 
 Example C18_new_total_nonvacuous :
-  exists s, new ex_cfg (fun _ => false) (Doc ex_doc) = Ok s /\ d_table s <> [].
+  exists s, new ex_cfg (fun _ => false) (Doc SumOk ex_doc) = Ok s /\ d_table s <> [].
 Proof. exact new_total_nonvacuous. Qed.
 Print Assumptions C18_new_total_nonvacuous.
 
